@@ -164,6 +164,15 @@ CHECKS = {
                 tech="contract-based deductive verification on an ordered effect log (relative to an assumed contract on json)",
                 note="Proof RELATIVE to the assumed dependency contract json.loads(json.dumps(d)) == d for JSON-representable d, which is "
                      "validated only boundedly; the end-to-end round trip additionally rests on C10."),
+    "C10": dict(cat="proof", design="3/C10",
+                text="DictExporter.export, the recursive __export and _iter_attr_values are proved from their real bodies against the "
+                     "recursive export predicate of the statement: every exported dictionary is made by dictcls from attriter(all "
+                     "instance attributes except the two bookkeeping keys), has a 'children' entry iff level < maxlevel (or no "
+                     "bound) and childiter(children) is non-empty, holding in order an export of each such child one level deeper; "
+                     "the start node is always exported; all options are passed unchanged to every level.",
+                tech="contract-based deductive verification with observers on fresh values and a recursive predicate (z3)",
+                note="DictImporter (import_/__import) and the two round-trip sentences (L9) are NOT under contract: covered by the "
+                     "BOUNDED stand-in run in both tiers (evidence.bounded_parts), never counted as proved."),
 }
 REASONS = {}
 
